@@ -17,7 +17,12 @@ def c16_programs(seed, tier):
     if tier == "thorough":
         ps += [progs.prog("w3", [progs.new(), progs.blob(progs.filler_for(1000), 3), progs.pc(p[5], 900, seed=seed + 3), progs.blob(3, 4),
                                  progs.image([progs.rep("visual", 40), progs.rep("pinhole", 2000, mask=1100, focal=1.0, pw=1.0, ph=1.0, px=1.0, py=1.0)]), progs.FIN]),
-               progs.prog("w4_packets", [progs.new(), progs.pc(p[0], 5200, seed=seed + 4), progs.FIN])]
+               progs.prog("w4_packets", [progs.new(), progs.pc(p[0], 5200, seed=seed + 4), progs.FIN]),
+               # every image representation, metadata-only, many small sections (programs with a second finalize belong to C15: the fault harness compares with ONE completed file)
+               progs.prog("w5_images", [progs.new(), progs.image([progs.rep("visual", 700, mask=300), progs.rep("spherical", 1200, mask=40, pw=0.1, ph=0.1)]),
+                                        progs.image([progs.rep("cylindrical", 900, pw=0.1, ph=0.1, radius=2.0, ppy=1.0)], guid="i2"), progs.FIN]),
+               progs.prog("w6_meta_only", [progs.new(), {"op": "coord", "v": "EPSG:4326" * 130}, progs.FIN]),
+               progs.prog("w7_many_sections", [progs.new()] + [x for i in range(12) for x in (progs.blob(90 + 83 * i, i), progs.pc(p[i % 6], 3 + i, seed=seed + i, guid=f"p{i}"))] + [progs.FIN])]
     return ps
 
 
